@@ -2114,6 +2114,55 @@ theorem expectSuperCsr_abs (n : Nat) (op state : CSR R) (hs : state.KetWF)
   intro k _
   rw [op_row_ket_sum (op.r.getD (k * (n + 1)) []) state hs (n * n) (hop _)]
   rfl
+
+/-- **`inner_op_csr` with `left` given as a ket** -/
+theorem innerOpCsrKet_abs (conj : R → R) (hc : conj 0 = 0) (left op right : CSR R) (hl : left.KetWF) (hr : right.KetWF)
+    (hop : ∀ i, ∀ p ∈ op.r.getD i [], p.1 < op.cols) :
+    innerOpCsrKet conj left op right
+      = ((List.range op.rows).map fun r => conj (left.abs r 0) *
+          ((List.range op.cols).map fun c => op.abs r c * right.abs c 0).sum).sum := by
+  unfold innerOpCsrKet
+  congr 1
+  apply List.map_congr_left
+  intro row _
+  rw [CSR.ket_abs left hl row]
+  cases hh : rowHead? (left.r.getD row []) with
+  | none => simp [hc]
+  | some h =>
+    simp only []
+    rw [op_row_ket_sum (op.r.getD row []) right hr op.cols (hop row)]
+    rfl
+
+/-- **`inner_op_csr` with `left` given as a bra** (its stored entries in any order, duplicates summed) -/
+theorem innerOpCsrBra_abs (left op right : CSR R) (hr : right.KetWF)
+    (hl : ∀ q ∈ left.r.getD 0 [], q.1 < op.rows) (hop : ∀ i, ∀ p ∈ op.r.getD i [], p.1 < op.cols) :
+    innerOpCsrBra left op right
+      = ((List.range op.rows).map fun r => left.abs 0 r *
+          ((List.range op.cols).map fun c => op.abs r c * right.abs c 0).sum).sum := by
+  unfold innerOpCsrBra CSR.abs
+  rw [sum_rowAbs_mul (left.r.getD 0 []) op.rows
+    (fun r => ((List.range op.cols).map fun c => rowAbs (op.r.getD r []) c * rowAbs (right.r.getD c []) 0).sum) hl]
+  congr 1
+  apply List.map_congr_left
+  intro q _
+  rw [op_row_ket_sum (op.r.getD q.1 []) right hr op.cols (hop q.1)]
+  rfl
+
+/-- **`inner_csr` with `left` given as a ket** -/
+theorem innerCsrKet_abs (conj : R → R) (hc : conj 0 = 0) (left right : CSR R) (hl : left.KetWF) (hr : right.KetWF) :
+    innerCsrKet conj left right = ((List.range left.rows).map fun r => conj (left.abs r 0) * right.abs r 0).sum := by
+  unfold innerCsrKet
+  congr 1
+  apply List.map_congr_left
+  intro row _
+  rw [CSR.ket_abs left hl row, CSR.ket_abs right hr row]
+  cases rowHead? (left.r.getD row []) <;> cases rowHead? (right.r.getD row []) <;> simp [hc]
+
+/-- **`inner_csr` with `left` given as a bra** -/
+theorem innerCsrBra_abs (left right : CSR R) (hr : right.KetWF) (n : Nat) (hl : ∀ q ∈ left.r.getD 0 [], q.1 < n) :
+    innerCsrBra left right = ((List.range n).map fun c => left.abs 0 c * right.abs c 0).sum := by
+  unfold innerCsrBra
+  exact op_row_ket_sum (left.r.getD 0 []) right hr n hl
 end csrExpectThm
 
 /-- **a specialisation constructed by inserting conversions computes the same operation**: if the
